@@ -645,6 +645,17 @@ where
                 return Err(("map:get".into(), format!("{}: get({}) gives {:?} instead of {:?}", kt.name(), show_int(kt, x), r, model.get(&x).map(|v| show(v)))));
             }
         }
+        // equal integers address the same entry also inside one bulk lookup: x, y, x, x, y for neighbours x, y
+        for w in b.windows(2).step_by(7) {
+            *evals += 1;
+            let (kx, ky) = (T::mk_ref(&w[0]), T::mk_ref(&w[1]));
+            let batch = [&kx, &ky, &kx, &kx, &ky];
+            let exp: Vec<Option<Vec<u8>>> = [w[0], w[1], w[0], w[0], w[1]].iter().map(|x| model.get(x).cloned()).collect();
+            let r = guard(|| m.bulk_get(&batch));
+            if r != Out::Ok(exp) {
+                return Err(("map:bulk_get".into(), format!("{}: bulk_get of [{x}, {y}, {x}, {x}, {y}] does not answer each position like get", kt.name(), x = show_int(kt, w[0]), y = show_int(kt, w[1]))));
+            }
+        }
         // iteration: keys convert back to the integers that were put
         match guard_plain(|| m.iter().map(|(k, v)| (k.back(), v)).collect::<Vec<_>>()) {
             Out::Ok(mut items) => {
@@ -695,6 +706,12 @@ fn byte_key_set() -> Vec<Vec<u8>> {
             v.push(vec![a, b]);
         }
     }
+    // several byte strings that are not valid UTF-8 and whose lossy decodings coincide (and the replacement character itself)
+    v.push(vec![0xFE]);
+    v.push(vec![0x80]);
+    v.push("\u{FFFD}".as_bytes().to_vec());
+    v.push(vec![b'x', 0xFF]);
+    v.push(vec![b'x', 0xFE]);
     v.push(vec![b'k'; 127]);
     v.push(vec![b'k'; 128]);
     v.push(vec![b'k'; 129]);
@@ -1208,6 +1225,35 @@ fn c13_job(payload: &[u8], io: &mut WorkerIo) -> Vec<u8> {
         };
         evals += 1;
         io.progress(evals);
+        if sub >= 4 {
+            // one file of the map replaced by a copy of one of its own sibling files (same key type, another file kind)
+            let pairs = [(0usize, 1usize), (0, 2), (1, 0), (1, 2), (2, 0), (2, 1)];
+            let (dst, src) = pairs[(sub - 4) % 6];
+            let mut mixed = img_a.clone();
+            let srcb = match src {
+                0 => img_a.htx.clone(),
+                1 => img_a.key.clone(),
+                _ => img_a.val.clone(),
+            };
+            match dst {
+                0 => mixed.htx = srcb,
+                1 => mixed.key = srcb,
+                _ => mixed.val = srcb,
+            }
+            match try_open_as(a, &mixed, &work) {
+                Ok(None) => {}
+                Ok(Some(what)) => {
+                    fail(&mut out, format!("sibling-file:{}:{}-is-a-copy-of-{}", a.name(), files[dst], files[src]), format!("a {} map ({}, {buckets} buckets) whose .{} file is a copy of its .{} file opens and answers: {what}", a.name(), if empty { "never updated" } else { "one entry" }, files[dst], files[src]), evals, payload.to_vec());
+                    return out.0;
+                }
+                Err(e) => {
+                    fail(&mut out, format!("rejected-open-modifies:{}:{}-is-{}", a.name(), files[dst], files[src]), format!("{} map whose .{} is a copy of its .{}: {e}", a.name(), files[dst], files[src]), evals, payload.to_vec());
+                    return out.0;
+                }
+            }
+            result_ok(&mut out, evals, evals);
+            return out.0;
+        }
         if sub == 0 {
             match try_open_as(b, &img_a, &work) {
                 Ok(None) => {}
@@ -1304,6 +1350,11 @@ pub fn c13(tier: &str, seed: u64) -> i32 {
                     jobs.push(b.0);
                 }
             }
+            for sub in 4..10u32 {
+                let mut b = Buf::new();
+                b.u8(JOB_F_C13).u8(empty).u8(a as u8).u8(a as u8).u32(sub);
+                jobs.push(b.0);
+            }
             for fi in 0..3u8 {
                 let mut b = Buf::new();
                 b.u8(JOB_F_C13).u8(1 | empty).u8(a as u8).u8(fi).u32(u32::MAX);
@@ -1345,7 +1396,7 @@ pub fn c13(tier: &str, seed: u64) -> i32 {
     eprintln!("[C13] open attempts: {evals}");
     ctx.run.set("evaluations", J::Int(evals as i64));
     ctx.run.set("distinct_nontrivial", J::Int(evals as i64));
-    ctx.run.set("rule", J::s("complete enumeration: (1) every ordered pair of the five key types: files created for A opened as B, and a directory of A files in which one of .htx/.key/.val comes from a B map opened as A; (2) per key type and per file every single-byte change (255 values) of each of the 16 leading signature bytes (5 x 3 x 16 x 255 = 61200 per table size and fill state); both families on tables of 8, 1, 4 and 1024 buckets (the table file is 137 bytes long with one bucket), each on maps holding one entry, on maps that were created and never updated (files of exactly header size) and on the files of a never-updated map as they are after flush() while the handles are still alive. each attempt runs under catch_unwind: the open must fail (Err or panic) or at least no len/get/includes_key/iteration may answer Ok; afterwards the three files must be byte-identical. every case is distinct"));
+    ctx.run.set("rule", J::s("complete enumeration: (1) every ordered pair of the five key types: files created for A opened as B, and a directory of A files in which one of .htx/.key/.val comes from a B map opened as A; per key type also every ordered pair of file kinds: one file replaced by a copy of a sibling file of the same map (a table file where the key file should be, ...); (2) per key type and per file every single-byte change (255 values) of each of the 16 leading signature bytes (5 x 3 x 16 x 255 = 61200 per table size and fill state); both families on tables of 8, 1, 4 and 1024 buckets (the table file is 137 bytes long with one bucket), each on maps holding one entry, on maps that were created and never updated (files of exactly header size) and on the files of a never-updated map as they are after flush() while the handles are still alive. each attempt runs under catch_unwind: the open must fail (Err or panic) or at least no len/get/includes_key/iteration may answer Ok; afterwards the three files must be byte-identical. every case is distinct"));
     ctx.run.sample(J::s("string files opened as bytes"));
     ctx.run.sample(J::s("u64 map whose .val comes from an i64 map, opened as u64"));
     ctx.run.sample(J::s("bytes map, byte 6 of .key changed from 'K' to 'L'"));
